@@ -49,6 +49,7 @@ func createASTTypeExpr(pkg string, t types.Type, varPool *VarPool, imports map[s
 					IsDefaultName: newPkgName == pkgName,
 					IsUsed:        false, // Will be marked during code generation
 				}
+				pkgName = newPkgName
 			}
 
 			namedExpr = &ast.SelectorExpr{
@@ -93,6 +94,7 @@ func createASTTypeExpr(pkg string, t types.Type, varPool *VarPool, imports map[s
 					IsDefaultName: newPkgName == pkgName,
 					IsUsed:        false, // Will be marked during code generation
 				}
+				pkgName = newPkgName
 			}
 
 			return &ast.SelectorExpr{
